@@ -15,9 +15,9 @@ from typing import Any, Dict, List
 from unittest import mock
 
 PROPERTY = "C15"
-LIN = ["linear:F_nobias", "linear:F_bias_pos", "linear:F_bias_kw", "linear:F_weight_kw", "linear:nn", "linear:nn_nobias"]
+LIN = ["linear:F_nobias", "linear:F_bias_pos", "linear:F_bias_kw", "linear:F_weight_kw", "linear:F_all_kw", "linear:nn", "linear:nn_nobias"]
 ULIN = ["ulinear:U", "ulinear:U_con_pos", "ulinear:U_con_kw", "ulinear:uu"]
-ATT = [f"{p}:{v}" for p in ("sdpa", "usdpa") for v in ("plain", "causal_kw", "mask_pos", "mask_kw", "dropout0_kw")]
+ATT = [f"{p}:{v}" for p in ("sdpa", "usdpa") for v in ("plain", "causal_kw", "mask_pos", "mask_kw", "dropout0_kw", "all_kw")]
 NEUTRAL = ["gelu:F", "tanh", "layer_norm:F", "add_scalar", "reshape"]
 ALL = LIN + ULIN + ATT + NEUTRAL
 SMALL = ["linear:F_bias_kw", "linear:nn", "ulinear:U_con_pos", "ulinear:uu", "sdpa:mask_pos", "usdpa:causal_kw",
